@@ -102,7 +102,9 @@ Stats(b, e, l, w, blocked) ==
         ids == IF dense THEN s.streams ELSE [j \in 1..Len(s.streams) |-> s.streams[j].id]
         held == CountIf(ids, LAMBDA r : Live(H(b, r)))
         \* streams the peer promised (PUSH_PROMISE) and the application has not been handed yet: judged by a rule of their own
-        resv == CountIf(ids, LAMBDA r : WS(w, r).resR /\ ~WS(w, r).surfaced /\ ~Live(H(b, r)))
+        \* (counted from the wire ledger, not from the id map: a pushed response that is already complete is closed and unlinked
+        \*  but its record still waits in the parent's queue for poll_push_promise)
+        resv == Cardinality({r \in DOMAIN w.st : r # 0 /\ w.st[r].resR /\ ~w.st[r].surfaced /\ ~Live(H(b, r))})
         \* every record in the slab counts (records unlinked from the id map included); every stream the application holds
         \* a handle of accounts for one of them
         heldStreams == Cardinality({x \in DOMAIN b.h : Live(b.h[x])})
@@ -140,7 +142,9 @@ Stats(b, e, l, w, blocked) ==
         \* records of streams that are closed and that the application has let go of
         retained == {j \in 1..Len(recs) : LET r == recs[j] x == WS(w, r.id) IN x.surfaced /\ ~Live(H(b, r.id)) /\ ClosedOnWire(x)}
         \* ... must be gone, unless the endpoint reset the stream itself (the short memory of locally reset streams)
-        stale == {j \in retained : LET r == recs[j] x == WS(w, r.id) IN x.rstOut = 0 /\ x.o # "rst" /\ ~H(b, r.id).lreset}
+        \* (a record that sits in the reset-expiration queue IS that memory - e.g. a library reset whose RST_STREAM was overtaken by
+        \*  the peer's own RST_STREAM and therefore never written; how many there may be is the next rule)
+        stale == {j \in retained : LET r == recs[j] x == WS(w, r.id) IN x.rstOut = 0 /\ x.o # "rst" /\ ~H(b, r.id).lreset /\ ~r.reset_at}
         b5a == IF judge
               THEN Check(b4, "C19.forgotten", stale = {}, l, 0, [j \in stale |-> <<recs[j].id, recs[j].state, recs[j].ref_count>>])
               ELSE b4
@@ -177,8 +181,11 @@ In(b, e, l, w) ==
     LET f == e.f
         n == IF f.ty = "CONTINUATION" THEN b.contRun + 1 ELSE 0
         b1 == [b EXCEPT !.contRun = n, !.goIn = b.goIn \/ f.ty = "GOAWAY"]
+        \* (frames of the transport read in progress do not count yet: E may have given up on the peer at an earlier frame of the
+        \*  same read - its GOAWAY is only written afterwards - while the harness logs every frame it handed over)
+        thisRead == Max(0, w.inCount - w.batchStart) + 1
         b2 == IF f.ty = "CONTINUATION" /\ Cfg(b).max_hdr_list >= 0
-              THEN Check(b1, "C18.continuation_bound", n <= ContBound(b), l, f.sid, <<n, ContBound(b)>>)
+              THEN Check(b1, "C18.continuation_bound", n - thisRead <= ContBound(b), l, f.sid, <<n, thisRead, ContBound(b)>>)
               ELSE b1
         \* empty DATA frames (padding or not) that do not end a stream carry nothing: an endpoint reads only so many of them
         \* (100 over the life of the connection in this library; the slack covers frames read in the same batch)
